@@ -29,6 +29,8 @@ _op = st.one_of(
     st.tuples(st.just("create_table"), _ci, _name()).map(list),
     st.tuples(st.just("create_table"), _ci, _name()).map(list),
     st.tuples(st.just("drop_table"), _ci, _name()).map(list),
+    st.tuples(st.just("create_table_soft"), _ci, _name()).map(list),
+    st.tuples(st.just("drop_table_soft"), _ci, _name()).map(list),
     st.tuples(st.just("create_view"), _ci, _name(), _name()).map(list),
     st.tuples(st.just("use_db"), _ci, _db).map(list),
     st.tuples(st.just("use_db"), _ci, _db).map(list),
@@ -79,10 +81,10 @@ def _case(draw, tier):
             if not twins:
                 continue
             k = twins[0] if exists and draw(st.booleans()) else draw(st.sampled_from(twins))
-            op = ["create_table", draw(_ci), [draw(_lvl), *k]]
+            op = ["create_table" if draw(st.integers(0, 3)) else "create_table_soft", draw(_ci), [draw(_lvl), *k]]
         else:
             k = draw(st.sampled_from(sorted(exists)))
-            kind = draw(st.sampled_from(["insert", "insert", "select", "update", "delete", "describe", "describe", "drop_table", "join", "insert_select", "create_view", "ctas"]))
+            kind = draw(st.sampled_from(["insert", "insert", "select", "update", "delete", "describe", "describe", "drop_table", "drop_table_soft", "create_table_soft", "join", "insert_select", "create_view", "ctas"]))
             nm = [draw(_lvl), *k]
             if kind in ("join", "insert_select"):
                 op = [kind, draw(_ci), nm, [draw(_lvl), *draw(st.sampled_from(sorted(exists)))]]
@@ -94,11 +96,11 @@ def _case(draw, tier):
             else:
                 op = [kind, draw(_ci), nm]
         ops.append(op)
-        if op[0] in ("create_table", "ctas") and op[2][0] == 3:
+        if op[0] in ("create_table", "create_table_soft", "ctas") and op[2][0] == 3:
             exists.add(tuple(op[2][1:]))
-        elif op[0] == "create_table":
+        elif op[0] in ("create_table", "create_table_soft"):
             exists.add(tuple(op[2][1:]))  # rough: a shorter name lands wherever the session's context says
-        elif op[0] == "drop_table":
+        elif op[0] in ("drop_table", "drop_table_soft"):
             exists.discard(tuple(op[2][1:]))
     if len(ops) < 3:
         ops += [draw(_op) for _ in range(3 - len(ops))]
@@ -160,12 +162,16 @@ def run_history(case, ctx: Ctx) -> None:
                         m.cat[d][s_] = {}
             ctx.cls("preseeded-catalogue")
         ncon = len(conns)
+        lcur = fs.connect().cursor()  # a log table outside the databases the histories use (the scan below leaves LOGDB out)
+        for sql in ("CREATE DATABASE LOGDB", "CREATE SCHEMA LOGDB.L", "CREATE TABLE LOGDB.L.CTXLOG (N INT, D VARCHAR, S VARCHAR, D2 VARCHAR, S2 VARCHAR)"):
+            lcur.execute(sql)
+        log_n = [0]
         why = ["connect"] * ncon  # how each connection came to its present context
         raw = fs.duck_conn.cursor()
         seen_ctx_change = False
         used_short_after_change = False
 
-        def observers(ci: int, situation: str) -> None:
+        def observers(ci: int, situation: str, dml: bool = True) -> None:
             """conn.database/schema, CURRENT_*() and the model agree."""
             c = conns[ci]
             mdb, msc = m.ctx[ci]
@@ -178,6 +184,21 @@ def run_history(case, ctx: Ctx) -> None:
                 ctx.fail(f"C03|current-functions|raises|{o.etype}", f"{o}")
                 return
             got = o.rows[0]
+            # the same two functions inside DML (fully qualified target, so the statement needs no context of its own) answer the same
+            log_n[0] += 1
+            n_ = log_n[0]
+            o2 = o3 = None
+            if dml:
+                o2 = run(c.cursor(), f"INSERT INTO LOGDB.L.CTXLOG (N, D, S) VALUES ({n_}, CURRENT_DATABASE(), CURRENT_SCHEMA())")
+                o3 = run(c.cursor(), f"UPDATE LOGDB.L.CTXLOG SET D2 = CURRENT_DATABASE(), S2 = CURRENT_SCHEMA() WHERE N = {n_}")
+            if not dml:
+                pass
+            elif not (o2.ok and o3.ok):
+                ctx.fail(f"C03|current-functions|in-dml|raises|{(o3 if o2.ok else o2).etype}", f"conn{ci}: {o2} / {o3}")
+            else:
+                logged = raw.execute(f"select D, S, D2, S2 from LOGDB.L.CTXLOG where N = {n_}").fetchall()
+                if logged != [(got[0], got[1], got[0], got[1])]:
+                    ctx.fail(f"C03|current-functions|in-dml-differs-from-select|{situation}", f"conn{ci}: SELECT answers {got}, INSERT/UPDATE stored {logged}; model {(mdb, msc)}")
             if mdb is None:
                 if got[0] is not None:
                     # the engine's default catalog is the listed finding; any other answer is some other session's context leaking in
@@ -194,7 +215,7 @@ def run_history(case, ctx: Ctx) -> None:
             """Every tagged row sits in the table the model says, and no table exists that the model lacks."""
             tabs = raw.execute(
                 "select table_catalog, table_schema, table_name, table_type from information_schema.tables "
-                "where table_catalog not in ('system','temp','memory','_fs_global') and table_schema <> 'information_schema'"
+                "where table_catalog not in ('system','temp','memory','_fs_global','LOGDB') and table_schema <> 'information_schema'"
             ).fetchall()
             have = {(a, b, c): t for a, b, c, t in tabs}
             want = {(d, s, t): o["kind"] for d, ss in m.cat.items() for s, ts in ss.items() for t, o in ts.items()}
@@ -326,6 +347,11 @@ def run_history(case, ctx: Ctx) -> None:
                 if kind == "create_table":
                     marker = f"M{step_no}"  # a column only this incarnation has
                     sql = f"CREATE TABLE {spell[0]} (TAG INT, {marker} INT)"
+                elif kind == "create_table_soft":
+                    marker = f"M{step_no}"
+                    sql = f"CREATE TABLE IF NOT EXISTS {spell[0]} (TAG INT, {marker} INT)"
+                elif kind == "drop_table_soft":
+                    sql = f"DROP TABLE IF EXISTS {spell[0]}"
                 elif kind == "drop_table":
                     sql = f"DROP TABLE {spell[0]}"
                 elif kind == "create_view":
@@ -367,6 +393,31 @@ def run_history(case, ctx: Ctx) -> None:
                     tgt, src = objs[0], (objs[1] if len(objs) > 1 else None)
                     r0 = res[0]
                     schema_exists = r0[1] in m.cat and r0[2] in m.cat[r0[1]]
+                    if kind in ("create_table_soft", "drop_table_soft"):
+                        # IF [NOT] EXISTS: with the schema there the statement succeeds whether or not the object is; what the property says about
+                        # them is the context rule above (they need a context like any other) and that they act on the resolved object only
+                        if not schema_exists or (kind == "drop_table_soft" and tgt is not None and tgt["kind"] != "table"):
+                            if o.ok and kind == "create_table_soft":
+                                ctx.fail(f"C03|resolved-elsewhere|statement-on-missing-object-succeeded|ctx={why[ci]}", f"{sql} (context {m.ctx[ci]}) succeeded but {r0[1:3]} does not exist; catalogue {_catalogue(m)}")
+                                return
+                            for k in range(ncon):
+                                observers(k, "ctx=" + why[k], dml=(k == ci))
+                            if not scan("ctx=" + why[ci]):
+                                return
+                            continue  # (whether DROP .. IF EXISTS of a name in a missing schema, or of a view, is an error is not stated; the scan says nothing moved)
+                        if not o.ok:
+                            ctx.fail(f"C03|resolved-elsewhere|raises|errno={o.errno}|ctx={why[ci]}", f"{sql} (context {m.ctx[ci]}) should act on {res}: {o}; catalogue {_catalogue(m)}")
+                            return
+                        ctx.cls(f"stmt:{kind}:{'present' if tgt is not None else 'absent'}", f"levels:{levels}")
+                        if kind == "create_table_soft" and tgt is None:
+                            m.cat[r0[1]][r0[2]][r0[3]] = {"kind": "table", "rows": [], "marker": marker}
+                        elif kind == "drop_table_soft" and tgt is not None:
+                            del m.cat[r0[1]][r0[2]][r0[3]]
+                        for k in range(ncon):
+                            observers(k, "ctx=" + why[k], dml=(k == ci))
+                        if not scan("ctx=" + why[ci]):
+                            return
+                        continue
                     if kind in ("create_table", "ctas", "create_view"):
                         valid = schema_exists and tgt is None and (kind == "create_table" or (src is not None and src["kind"] == "table"))
                     elif kind in ("drop_table", "insert", "update", "delete"):
@@ -422,7 +473,7 @@ def run_history(case, ctx: Ctx) -> None:
                             m.cat[r0[1]][r0[2]][r0[3]] = {"kind": "table", "rows": [t + 2000 for t in src["rows"]]}
             # after every step: every connection's observers agree, rows are where the model says
             for k in range(ncon):
-                observers(k, "ctx=" + why[k])
+                observers(k, "ctx=" + why[k], dml=(k == ci))
             if not scan("ctx=" + why[ci]):
                 return
         ctx.nontrivial = used_short_after_change
